@@ -639,7 +639,11 @@ pub fn cost_families(out: &mut crate::Out, thorough: bool, seed: u64) {
     }
     // deeply nested loops in a covenant as large as a transaction can carry (child process: a stack overflow aborts)
     for k in if thorough { vec![1000usize, 5000, 20000, 50000, 200000] } else { vec![1000usize, 20000, 60000] } {
-        out.put(deep_record(k));
+        out.put(deep_record(k, false));
+    }
+    // very long covenants without any nesting
+    for k in if thorough { vec![10_000usize, 100_000, 1_000_000, 4_000_000] } else { vec![10_000usize, 100_000, 1_000_000] } {
+        out.put(deep_record(k, true));
     }
     // vectors nested a*b deep, built by VEmpty; Loop(a,3){Loop(b,2){VEmpty; VPush}} (child process: recursion in clone / drop may exhaust the stack)
     for (a, b) in if thorough { vec![(1u16, 100u16), (1, 1000), (1, 5000), (1, 20000), (1, 65535), (4, 65535)] } else { vec![(1u16, 100u16), (1, 1000), (1, 20000), (2, 65535)] } {
@@ -778,10 +782,15 @@ pub fn optable(out: &mut crate::Out) {
 
 /// Deep nesting: k nested `Loop(0, 65535)` weighed through the public path (from_bytes -> weight) on a thread with a
 /// 2 MiB stack (what a worker thread of a validator has), in a CHILD process, because exhausting the stack aborts the process.
-pub fn deep_child(k: usize) {
+pub fn deep_child(k: usize, flat: bool) {
     let mut bytes: Vec<u8> = Vec::with_capacity(5 * k + 3);
     for _ in 0..k {
-        bytes.extend_from_slice(&[0xb0, 0x00, 0x00, 0xff, 0xff]);
+        // flat: k Noop instructions (weight 1 each); nested: k loop headers, each enclosing everything that follows
+        if flat {
+            bytes.push(0x09);
+        } else {
+            bytes.extend_from_slice(&[0xb0, 0x00, 0x00, 0xff, 0xff]);
+        }
     }
     bytes.extend_from_slice(&[0xf2, 0x01, 0x01]);
     let h = std::thread::Builder::new().stack_size(2 * 1024 * 1024).spawn(move || melvm::covenant_weight_from_bytes(&bytes)).unwrap();
@@ -791,10 +800,10 @@ pub fn deep_child(k: usize) {
     }
 }
 
-pub fn deep_record(k: usize) -> J {
+pub fn deep_record(k: usize, flat: bool) -> J {
     let exe = std::env::current_exe().unwrap();
     let t0 = std::time::Instant::now();
-    let out = std::process::Command::new(exe).args(["deepchild", "--k", &k.to_string()]).output();
+    let out = std::process::Command::new(exe).args(["deepchild", "--k", &k.to_string(), "--flat", if flat { "1" } else { "0" }]).output();
     let ms = t0.elapsed().as_millis() as u64;
     let (status, weight) = match out {
         Ok(o) if o.status.success() => {
@@ -804,7 +813,7 @@ pub fn deep_record(k: usize) -> J {
         Ok(_) => ("abort", json!([])),
         Err(_) => ("spawn-error", json!([])),
     };
-    json!({"ev": "deep", "fam": "cost-deep-nesting", "k": k, "bytes": 5 * k + 3, "status": status, "weight": weight, "ms": ms})
+    json!({"ev": "deep", "fam": if flat { "cost-long-flat" } else { "cost-deep-nesting" }, "k": k, "bytes": if flat { k + 3 } else { 5 * k + 3 }, "status": status, "weight": weight, "ms": ms})
 }
 
 
